@@ -128,6 +128,24 @@ SYNTAX = ["uint8", "uint8 a b", "@", "= 5", "uint8 a = ", "@print abc def", " ui
 # ----------------------------------------------------------------------------------------------------------------
 # files
 
+# characters str.splitlines() treats as line boundaries; only LF - and CR / CRLF, which open() in text mode turns into LF -
+# end a line of the file.  The others may stand raw inside a string literal and must not move any line number.
+LINE_BREAKS = ["\n", "\n", "\r\n", "\r"]
+NOT_BREAKS = ["\x0b", "\x0c", "\x1c", "\x1d", "\x1e", "\x85", "\u2028", "\u2029"]
+
+
+def raw_literal(rng, head=""):
+    """a quoted string literal with raw separators: (token, value as the parser sees it, physical lines - 1)"""
+    import re
+    n = rng.choice([0, 1, 1, 2, 3])
+    body = head
+    for _ in range(n):
+        body += rng.choice(LINE_BREAKS + NOT_BREAKS + NOT_BREAKS[:4]) + rng.choice(["", "q", "x y", "z"])
+    q = rng.choice("'\"")
+    seen = re.sub(r"\r\n|\r", "\n", body)          # universal newlines of DSDLDefinition.text
+    return q + body + q, seen, seen.count("\n")
+
+
 def filler_stmt(rng, ctr, kind):
     r = rng.random()
     ctr[0] += 1
@@ -140,19 +158,27 @@ def filler_stmt(rng, ctr, kind):
         return const([["uint8", "m"]], "C%d" % i, T(str(rng.randrange(0, 200))))
     if r < 0.7 and kind != "union":
         return st([["void%d" % rng.randrange(1, 9), "o"]], [], {"k": "pad", "ty": None, "cf": False})
-    if r < 0.85:
+    if r < 0.78:
         s = rng.choice(["x\ny", "\n", "a\n\nb", "p"])
         return dirv("assert", ["b", True], T(repr(s).replace("\\n", "\n"), "!=", "''"), extra=s.count("\n"))
+    if r < 0.9:
+        tok, _, extra = raw_literal(rng, "k")
+        return dirv("assert", ["b", True], T(tok, "!=", "''"), extra=extra)
     return dirv("assert", ["b", True], T("true"))
 
 
 def print_stmt(rng, uid):
     r = rng.random()
-    if r < 0.5:
+    if r < 0.35:
         return dirv("print", ["i", uid], T(str(uid)), shown=str(uid))
-    if r < 0.75:
+    if r < 0.5:
         s = "p%d\nq" % uid
         return dirv("print", "other", T("'" + s + "'"), extra=1, shown=repr(s))
+    if r < 0.65:
+        tok, seen, extra = raw_literal(rng, "r%d" % uid)
+        return dirv("print", "other", T(tok), extra=extra, shown=repr(seen))
+    if r < 0.8:
+        return dirv("print", None, shown="")        # a bare @print: delivered once with the empty text
     return dirv("print", ["i", uid], T(str(uid - 1), "+", "1"), shown=str(uid))
 
 
@@ -392,6 +418,20 @@ def targeted():
     out.append(mk([("ns/M.1.0.dsdl", True, [L(ref_field("Z1.1.0", 2, "z")), L(sealed)], None),
                    ("ns/Z1.1.0.dsdl", True, [L(), L(ref_field("ns.M.1.0", 1, "m")), L(sealed)], 2)], "type:cycle", 2, 1, 1))
     out.append(mk([("ns/M.1.0.dsdl", True, [L(c=" x"), L(p222), L(ref_field("M.1.0", 1, "m")), L(sealed)], 3)], "type:self", 1, 0, 0))
+    # seeded C17-2: characters that str.splitlines() breaks on but that do not end a line of the file, raw inside a literal
+    odd = "a\x0bb\x0cc\x1cd\x1de\x1ef\x85g\u2028h\u2029i"
+    out.append(mk([("ns/M.1.0.dsdl", True, [L(dirv("assert", ["b", True], T("'" + odd + "'", "!=", "''"))), L(sealed), L(p222),
+                                            L(dirv("print", "other", T('"' + odd + '"'), shown=repr(odd))), L(dirv("assert", ["b", False], T("false")))], 5)],
+                  "dir:assert-false", 1, 0, 0))
+    # ... while a lone CR and CRLF inside a literal do (universal newlines): the assertion stands on physical line 5
+    out.append(mk([("ns/M.1.0.dsdl", True, [L(dirv("print", "other", T("'a\rb\r\nc'"), extra=2, shown=repr("a\nb\nc"))), L(sealed),
+                                            L(dirv("assert", ["b", False], T("false")))], 5)], "dir:assert-false", 1, 0, 0))
+    # seeded C17-3: a bare @print is delivered once with the empty text - in a message, in both sections of a service, in a dependency
+    bare = lambda: dirv("print", None, shown="")
+    out.append(mk([("ns/M.1.0.dsdl", True, [L(bare()), L(sealed)], None)]))
+    out.append(mk([("ns/M.1.0.dsdl", True, [L(c=" h"), L(bare()), L(sealed), L(dict(MARKER)), L(), L(bare()), L(sealed)], None)]))
+    out.append(mk([("ns/M.1.0.dsdl", True, [L(ref_field("lk.L1.1.0", 2, "z")), L(bare()), L(sealed)], None),
+                   ("lk/L1.1.0.dsdl", False, [L(field("a")), L(), L(bare()), L(sealed)], None)]))
     for cat in ANYWHERE + STATEFUL:
         for depth, where in ((0, 0), (2, 2), (2, 1)):
             out.append(gen_case(rng, "quick", cat, depth, where))
@@ -567,33 +607,34 @@ def predicates(case, o):
             fails.append("error: exception class %s for the planted fault %s" % (res["cls"], case["category"]))
         elif res["path"] != f["rel"] or res["line"] != f["fault_line"]:
             fails.append("error: the fault %s planted at %s:%s is reported at %s:%s" % (case["category"], f["rel"], f["fault_line"], res["path"], res["line"]))
-    # 2. deliveries: own path, own line, once
-    directives = {}
+    # 2. deliveries: own path, own line, once (texts need not be unique: a bare @print delivers "")
+    directives = []
     for f in case["files"]:
         for kind, line, payload in events(f):
             if kind == "print":
-                directives[payload] = (f["rel"], line)
-    seen = {}
+                directives.append((f["rel"], line, payload))
+    count = {d: 0 for d in directives}
     f3 = 0
+    f3_for = set()       # directives explained by a delivery under a referrer's path
     other = []
     for p, l, t in o["prints"]:
-        d = directives.get(t)
-        if d is None:
-            other.append("print: delivery (%s, %s, %r) matches no directive" % (p, l, t))
-            continue
-        if d == (p, l) and t not in seen:
-            seen[t] = 1
-            continue
-        if d[1] == l and p != d[0] and reaches(case, p, d[0]):
-            f3 += 1          # right line and text, path of a target that (transitively) refers to the directive's file
-            seen.setdefault(t, 0)
-            continue
-        other.append("print: directive at %s:%s delivered as (%s, %s)%s" % (d[0], d[1], p, l, " again" if t in seen else ""))
-        seen[t] = 1
+        cands = [d for d in directives if d[1] == l and d[2] == t and d[0] != p and reaches(case, p, d[0])]
+        if (p, l, t) in count and (count[(p, l, t)] == 0 or not cands):
+            count[(p, l, t)] += 1
+            if count[(p, l, t)] > 1:
+                other.append("print: directive at %s:%s delivered again" % (p, l))
+        elif cands:
+            # right line and text, path of a target that (transitively) refers to the directive's file.  (A bare @print has
+            # no distinguishing text: a second delivery with the path and line of an own directive counts as F3 when such a
+            # directive exists in a referenced file at the same line.)
+            f3 += 1
+            f3_for.update(cands)
+        else:
+            other.append("print: delivery (%s, %s, %r) matches no directive with its own path and line" % (p, l, t))
     if res["ok"]:
-        for t, d in directives.items():
-            if t not in seen:
-                other.append("print: directive at %s:%s was never delivered" % d)
+        for d, n in count.items():
+            if n == 0 and d not in f3_for:
+                other.append("print: directive at %s:%s was never delivered" % (d[0], d[1]))
     fails.extend(other)
     if f3:
         fails.append("F3: %d deliveries carry the path of the referring target instead of the directive's own file" % f3)
